@@ -1734,6 +1734,74 @@ func sharedSlicesStayHome(c *core.Ctx, p *load.Prog) {
 		})
 		c.Count("package_level_values_carrying_slices", n)
 	}
+	// R2e: a value built once for the whole package (a package-level variable
+	// initialised by a call) that holds function literals: a literal that
+	// returns a variable of its builder which carries a slice returns the same
+	// backing array to every caller, for the life of the process
+	// (`tk := token{concrete: []byte(text)}; add(func() token { return tk })`)
+	for _, pkg := range []*packages.Package{p.Bebop(), p.Iohelp()} {
+		if pkg == nil {
+			continue
+		}
+		info := pkg.TypesInfo
+		for _, f := range pkg.Syntax {
+			for _, d := range f.Decls {
+				gd, ok := d.(*ast.GenDecl)
+				if !ok || gd.Tok != token.VAR {
+					continue
+				}
+				for _, sp := range gd.Specs {
+					vs, ok := sp.(*ast.ValueSpec)
+					if !ok {
+						continue
+					}
+					for i, val := range vs.Values {
+						call, ok := ast.Unparen(val).(*ast.CallExpr)
+						if !ok || i >= len(vs.Names) {
+							continue
+						}
+						cal := load.Callee(info, call)
+						if cal == nil || cal.Pkg() != pkg.Types {
+							continue
+						}
+						bd := p.Decl(cal)
+						if bd == nil || bd.Body == nil {
+							continue
+						}
+						ast.Inspect(bd.Body, func(n ast.Node) bool {
+							lit, ok := n.(*ast.FuncLit)
+							if !ok {
+								return true
+							}
+							ast.Inspect(lit.Body, func(k ast.Node) bool {
+								ret, ok := k.(*ast.ReturnStmt)
+								if !ok {
+									return true
+								}
+								for _, r := range ret.Results {
+									id, ok := ast.Unparen(r).(*ast.Ident)
+									if !ok {
+										continue
+									}
+									o, ok := info.ObjectOf(id).(*types.Var)
+									if !ok || !holdsSlice(o.Type(), 0) {
+										continue
+									}
+									// declared in the builder, outside the literal
+									if o.Pos() >= bd.Body.Pos() && o.Pos() < bd.Body.End() && !(o.Pos() >= lit.Pos() && o.Pos() < lit.End()) {
+										c.Check("R2e", "a function kept in the package-level "+vs.Names[i].Name+" does not return a slice-carrying variable of its builder ("+id.Name+")", p.Pos(ret.Pos()), false,
+											vs.Names[i].Name+" is built once by "+cal.Name()+"; the function literal it keeps returns "+id.Name+", a variable of "+cal.Name()+" that carries a slice: every call, from every goroutine, gets the same backing array, and an append onto it by one caller (Format appends to a `[` token's text) is seen by all")
+									}
+								}
+								return true
+							})
+							return true
+						})
+					}
+				}
+			}
+		}
+	}
 	c.Check("R2d", "no slice kept in package-level storage is handed out (scan complete)", "package bebop, iohelp", true, "")
 	f, info, err := typeCheckFixture(c, "sharedslice")
 	if err != nil {
